@@ -80,6 +80,8 @@ package distributed
 //@ pred sm_wf(s *sessionMetadatasState) := s != nil && s.sessions != nil && (forall k string :: {s.sessions[k]} {k in s.sessions} k in s.sessions ==> s.sessions[k].SessionID == k)
 //@ func (*sessionMetadatasState).mergeSessions(sessions []*api.SessionMetadatas) (err error)
 //@   requires sm_wf(s) && unlocked(s.mu)
+//@   records #mergeSessCalls := old(#mergeSessCalls) + 1
+//@   records #lastMergeSessLen := len(sessions)
 //@   ensures sm_wf(s)
 //@   requires forall i int :: {sessions[i]} 0 <= i && i < len(sessions) ==> sessions[i] != nil
 //@   ensures forall k string :: {s.sessions[k]} {k in s.sessions} old(k in s.sessions) ==> k in s.sessions && smts(s.sessions[k]) >= old(smts(s.sessions[k]))
@@ -99,6 +101,14 @@ package distributed
 //@ assume-call var.clock() (t int64)
 //@   ensures t > 0
 //@   modifies nothing
+// ... and the clock installed at start-up is the wall clock in NANOSECONDS (two changes of one entry made within the same
+// second still get different, ordered stamps)
+//@ trusted func (time.Time).UnixNano(t time.Time) (r int64)
+//@   ensures #nanoReads == old(#nanoReads) + 1 && #lastNanos == r
+//@   modifies #nanoReads, #lastNanos
+//@ func init$1() (r int64)
+//@   ensures #nanoReads == old(#nanoReads) + 1 && r == #lastNanos
+//@   modifies #nanoReads, #lastNanos
 
 // The content of an encoded StateBroadcastEvent as a decoder sees it (A-PROTOBUF: Marshal writes, Unmarshal reads exactly this;
 // pointers and slices are compared by what they point to: sm_eq / sub_eq / rm_eq).
@@ -322,8 +332,9 @@ package distributed
 //@   modifies effects(iterator), #treeIterates
 
 // set hands the record to the trie: one upsert at the record's pattern with the merge closure above; the record is logged
+// (C20: the read-merge-write of a pattern's list is atomic only under the WRITE lock of the state)
 //@ func (*subscriptionsState).set(subscription api.Subscription)
-//@   requires s != nil && s.subscriptions != nil
+//@   requires s != nil && s.subscriptions != nil && wlocked(s.mu)
 //@   ensures #treeUpserts == old(#treeUpserts) + 1 && #lastUpsertKey == string(subscription.Pattern)
 //@   ensures #setN == old(#setN) + 1 && #setSid == update(old(#setSid), old(#setN), subscription.SessionID) && #setPat == update(old(#setPat), old(#setN), string(subscription.Pattern))
 //@         && #setPeer == update(old(#setPeer), old(#setN), subscription.Peer) && #setQoS == update(old(#setQoS), old(#setN), subscription.QoS)
@@ -350,6 +361,8 @@ package distributed
 // closure); an invalid record stops the batch with an error.
 //@ func (*subscriptionsState).mergeSubscriptions(subscriptions []*api.Subscription) (err error)
 //@   requires s != nil && s.subscriptions != nil && unlocked(s.mu)
+//@   records #mergeSubCalls := old(#mergeSubCalls) + 1
+//@   records #lastMergeSubLen := len(subscriptions)
 //@   requires forall i int :: {subscriptions[i]} 0 <= i && i < len(subscriptions) ==> subscriptions[i] != nil
 //@   ensures err == nil ==> #setN == old(#setN) + len(subscriptions) && (forall i int :: {subscriptions[i]} {#setSid[old(#setN) + i]} 0 <= i && i < len(subscriptions) ==> setlog_is(old(#setN) + i, *subscriptions[i]))
 //@   ensures err != nil ==> err == ErrInvalidPayload && #setN - old(#setN) < len(subscriptions) && #setN >= old(#setN)
@@ -568,8 +581,9 @@ package distributed
 //@   invariant forall i int :: {out[i]} {outBuf[i]} 0 <= i && i <= rangeindex ==> out[i] != nil && fresh(out[i]) && allocated(out[i]) && rm_is(string(outBuf[i]), *out[i])
 
 // set encodes the record and writes it at the topic (nothing is written when it cannot be encoded)
+// (C20: the lookup-compare-store of a retained record is atomic only under the WRITE lock of the state)
 //@ func (*topicsState).set(topic []byte, msg *api.RetainedMessage) (err error)
-//@   requires t != nil && t.tree != nil && msg != nil
+//@   requires t != nil && t.tree != nil && msg != nil && wlocked(t.mu)
 //@   ensures err == nil ==> #storeInserts == old(#storeInserts) + 1 && rm_is(#rstore[string(topic)], *msg) && (forall k string :: {#rstore[k]} k != string(topic) ==> #rstore[k] == old(#rstore)[k])
 //@   ensures err != nil ==> #rstore == old(#rstore) && #storeInserts == old(#storeInserts)
 //@   modifies #rstore, #storeInserts, newrows(bytes)
@@ -582,6 +596,8 @@ package distributed
 //@ pred rm_change(m *api.RetainedMessage) := (m.LastAdded > 0 && m.LastAdded > m.LastDeleted) || (m.LastDeleted > 0 && m.LastAdded < m.LastDeleted)
 //@ func (*topicsState).mergeMessages(messages []*api.RetainedMessage) (err error)
 //@   requires t != nil && t.tree != nil && unlocked(t.mu)
+//@   records #mergeMsgCalls := old(#mergeMsgCalls) + 1
+//@   records #lastMergeMsgLen := len(messages)
 //@   requires forall i int :: {messages[i]} 0 <= i && i < len(messages) ==> messages[i] != nil && (messages[i].Publish != nil ==> nowild(string(messages[i].Publish.Topic)))
 //@   requires forall k string :: {#rstore[k]} #rstore[k] == "" || rm_ok(#rstore[k])
 //@   ensures forall k string :: {#rstore[k]} (#rstore[k] == "" || rm_ok(#rstore[k])) && rts(#rstore[k]) >= rts(old(#rstore)[k])
@@ -684,9 +700,13 @@ package distributed
 //@   ensures sm_wf(s.sessionMetadatas)
 //@   ensures forall k string :: {#rstore[k]} (#rstore[k] == "" || rm_ok(#rstore[k])) && rts(#rstore[k]) >= rts(old(#rstore)[k])
 //@   ensures forall k string :: {s.sessionMetadatas.sessions[k]} {k in s.sessionMetadatas.sessions} old(k in s.sessionMetadatas.sessions) ==> k in s.sessionMetadatas.sessions && smts(s.sessionMetadatas.sessions[k]) >= old(smts(s.sessionMetadatas.sessions[k]))
+// (every part of a message that decodes is handed to its merge, in full, whatever the other parts hold)
+//@   ensures #mergeSessCalls == old(#mergeSessCalls) ==> #mergeSubCalls == old(#mergeSubCalls) && #mergeMsgCalls == old(#mergeMsgCalls) && #setN == old(#setN) && #rstore == old(#rstore)
+//@   ensures #mergeSessCalls != old(#mergeSessCalls) ==> #mergeSessCalls == old(#mergeSessCalls) + 1 && #lastMergeSessLen == ev_nsess(string(buf))
+//@            && #mergeSubCalls == old(#mergeSubCalls) + 1 && #lastMergeSubLen == ev_nsubs(string(buf)) && #mergeMsgCalls == old(#mergeMsgCalls) + 1 && #lastMergeMsgLen == ev_nret(string(buf))
 //@   ensures #setN >= old(#setN) && #setN <= old(#setN) + ev_nsubs(string(buf))
 //@   ensures forall j int :: {#setSid[old(#setN) + j]} 0 <= j && j < #setN - old(#setN) ==> #setSid[old(#setN) + j] == ev_sub(string(buf), j).SessionID && #setPat[old(#setN) + j] == ev_sub_pat(string(buf), j) && #setLA[old(#setN) + j] == ev_sub(string(buf), j).LastAdded && #setLD[old(#setN) + j] == ev_sub(string(buf), j).LastDeleted
-//@   modifies *, except(heap(E_byte)), newrows(bytes), #setN, #setSid, #setPat, #setPeer, #setQoS, #setLA, #setLD, #treeUpserts, #lastUpsertKey, #rstore, #storeInserts, #storeMatches
+//@   modifies *, except(heap(E_byte)), newrows(bytes), #setN, #setSid, #setPat, #setPeer, #setQoS, #setLA, #setLD, #treeUpserts, #lastUpsertKey, #rstore, #storeInserts, #storeMatches, #mergeSessCalls, #lastMergeSessLen, #mergeSubCalls, #lastMergeSubLen, #mergeMsgCalls, #lastMergeMsgLen
 
 // C10: the full-state snapshot is built from the three tables (one iteration over the subscription index and over the retained
 // store, the collecting closures are specified above) and carries EVERY session record, removed ones included.
